@@ -288,6 +288,49 @@ pub fn cases_of(id: &str, source: &str, m: &mut Module) -> Vec<Json> {
             dfs_pre_order_mut(&mut v, lf, e);
             out.push(json!({"id": format!("{}~pre_order_mut_overridden", base), "source": source, "flavour": "pre_order_mut_overridden", "tree": tree, "log": v.inner.log.finish()}));
         }
+        // the traversals take the sequence to start from: a nested one reports its own sub-tree only
+        let entry = tree["entry"].as_u64().unwrap() as usize;
+        let nested: Vec<usize> = tree["seqs"].as_array().unwrap().iter().flat_map(|s| s.as_array().unwrap().iter().flat_map(|i| i["kids"].as_array().unwrap().iter().map(|k| k.as_u64().unwrap() as usize))).filter(|k| *k != entry).collect();
+        for &start in nested.iter().take(1).chain(nested.iter().rev().take(1)) {
+            let mut sub = tree.clone();
+            sub["entry"] = json!(start);
+            let sid = {
+                let lf = m.funcs.get(fid).kind.unwrap_local();
+                let mut found = None;
+                let mut todo = vec![lf.entry_block()];
+                while let Some(q) = todo.pop() {
+                    if q.index() == start {
+                        found = Some(q);
+                        break;
+                    }
+                    for (ins, _) in lf.block(q).instrs.iter() {
+                        match ins {
+                            Instr::Block(b) => todo.push(b.seq),
+                            Instr::Loop(b) => todo.push(b.seq),
+                            Instr::IfElse(b) => {
+                                todo.push(b.consequent);
+                                todo.push(b.alternative);
+                            }
+                            _ => {}
+                        }
+                    }
+                }
+                found
+            };
+            let Some(sid) = sid else { continue };
+            {
+                let lf = m.funcs.get(fid).kind.unwrap_local();
+                let mut v = Rec::default();
+                dfs_in_order(&mut v, lf, sid);
+                out.push(json!({"id": format!("{}~in_order@{}", base, start), "source": source, "flavour": "in_order", "tree": sub, "log": v.log.finish()}));
+            }
+            {
+                let lf = m.funcs.get_mut(fid).kind.unwrap_local_mut();
+                let mut v = RecMut::default();
+                dfs_pre_order_mut(&mut v, lf, sid);
+                out.push(json!({"id": format!("{}~pre_order_mut@{}", base, start), "source": source, "flavour": "pre_order_mut", "tree": sub, "log": v.log.finish()}));
+            }
+        }
     }
     out
 }
